@@ -664,7 +664,7 @@ fn sys_member_join(g: &mut Gen<'_>, v: u32) {
             for other_target in 0..2 {
                 for cm in 0..N_MEMB {
                     for jr in 0..N_JR {
-                        for au in 0..9 {
+                        for au in 0..12 {
                             let restricted = jr == 3 || jr == 4;
                             if !restricted && au > 1 {
                                 continue;
@@ -702,6 +702,22 @@ fn sys_member_join(g: &mut Gen<'_>, v: u32) {
                                 }
                                 7 => {
                                     content.insert("join_authorised_via_users_server".into(), cj(json!([DAVE])));
+                                    c.set_member(DAVE, 1);
+                                }
+                                // near-miss spellings of the member the rules read: they are unknown members and
+                                // change nothing (seed4 C09-2: the American spelling read as an alias)
+                                9 => {
+                                    content.insert("join_authorized_via_users_server".into(), cj(json!(DAVE)));
+                                    c.set_member(DAVE, 1);
+                                }
+                                10 => {
+                                    content.insert("join_authorized_via_users_server".into(), cj(json!(BOB)));
+                                    content.insert("join_authorised_via_users_server".into(), cj(json!(DAVE)));
+                                    c.set_member(DAVE, 1);
+                                }
+                                11 => {
+                                    content.insert("Join_Authorised_Via_Users_Server".into(), cj(json!(DAVE)));
+                                    content.insert("join_authorised_via_users_servers".into(), cj(json!(DAVE)));
                                     c.set_member(DAVE, 1);
                                 }
                                 _ => {
